@@ -114,6 +114,13 @@ Proof. intros. unfold dgram_in, wake_opt. destruct (c_dgin_err m); [reflexivity|
 Lemma fx_flow_err : forall m e, c_fix23 (flow_conn_error e m) = c_fix23 m.
 Proof. intros. unfold flow_conn_error. destruct (c_ferr m); reflexivity. Qed.
 
+Lemma fx_race : forall m idx e t a, c_fix23 (fst (race m idx e t a)) = c_fix23 m.
+Proof.
+  intros m idx e t a. unfold race. destruct (race_kind t a) as [k|]; [|reflexivity].
+  pose proof (fx_start_task m idx k) as Q. destruct (start_task m idx k) as [m1 o]. cbn [fst] in *.
+  rewrite fx_conn_error. exact Q.
+Qed.
+
 Lemma fx_cm_op : forall m idx tag a, c_fix23 (fst (cm_op m idx tag a)) = c_fix23 m.
 Proof.
   intros m idx tag a. unfold cm_op.
@@ -128,7 +135,7 @@ Proof.
     first [ apply fx_handshake | apply fx_start_task | apply fx_sid_increase | apply fx_conn_error
           | apply fx_dgram_send | apply fx_peer_open | apply fx_peer_data | apply fx_peer_fingap
           | apply fx_peer_reset | apply fx_peer_stop | apply fx_peer_maxsd | apply fx_load | apply fx_ack
-          | apply fx_dgram_in | apply fx_flow_err | (rewrite p_credit; reflexivity) ].
+          | apply fx_dgram_in | apply fx_flow_err | apply fx_race | (rewrite p_credit; reflexivity) ].
 Qed.
 
 Lemma fx_repoll : forall todo m, c_fix23 (fst (fst (repoll m todo))) = c_fix23 m.
@@ -173,7 +180,7 @@ Qed.
 
 (* c17_release_all without the hypothesis on the flag *)
 Lemma p_c17_release_all' : forall cfg m0 before e after,
-  cm_init true cfg = Some m0 -> Forall (fun o => fst o <> 21) before ->
+  cm_init true cfg = Some m0 -> Forall (fun o => fst o <> 21 /\ fst o <> 24) before ->
   let m := cm_exec m0 0 before in
   (forall t, In t (registered m) -> In t (c_woken (conn_error e m))) /\
   registered (conn_error e m) = [] /\
@@ -257,4 +264,69 @@ Proof.
     intros _. slots.
   - unfold poll_pready. destruct (c_perr m); [discriminate|]. destruct (c_pready m); cbn [fst snd]; [discriminate|].
     intros _. slots.
+Qed.
+
+(* ---------------------------------------------------------------- a poll racing the connection error *)
+(* open / accept park in slots that belong to no stream half: a Pending poll is REGISTERED (not merely in a slot) *)
+Lemma open_accept_pending_registered : forall m t k,
+  (exists d, k = KOpen d \/ k = KAccept d) ->
+  fst (snd (poll m t k)) = 0%Z -> In t (registered (fst (poll m t k))).
+Proof.
+  intros m t k [d [K|K]]; subst k; cbn [poll].
+  - unfold poll_open. destruct (c_out_err m); [discriminate|]. destruct (c_perr m); [discriminate|].
+    destruct (open_window m).
+    + destruct (_ <? _); cbn [fst snd]; [discriminate|]. intros _.
+      destruct (d =? 0) eqn:D; unfold registered, lset, lget; rewrite D; cbn; repeat rewrite in_app_iff; cbn [In]; auto 14.
+    + cbn [fst snd]. intros _. unfold registered; cbn; repeat rewrite in_app_iff; cbn [In]; auto 14.
+  - unfold poll_accept. destruct (c_out_err m); [discriminate|]. destruct (d =? 0).
+    + destruct (c_perr m); [discriminate|]. destruct (c_pready m).
+      * destruct (fst (c_lq m)); cbn [fst snd]; [|discriminate]. intros _.
+        unfold registered; cbn; repeat rewrite in_app_iff; cbn [In]; auto 14.
+      * cbn [fst snd]. intros _. unfold registered; cbn; repeat rewrite in_app_iff; cbn [In]; auto 14.
+    + destruct (snd (c_lq m)); cbn [fst snd]; [|discriminate]. intros _.
+      unfold registered; cbn; repeat rewrite in_app_iff; cbn [In]; auto 14.
+Qed.
+
+Lemma race_kind_open_accept : forall t a k, race_kind t a = Some k -> exists d, k = KOpen d \/ k = KAccept d.
+Proof.
+  intros t a k H. unfold race_kind in H.
+  destruct t as [|[[p|p|]|[p|p|]|]]; cbn in H; try discriminate H;
+    destruct a as [|d [|x r]]; cbn in H; try discriminate H; inversion H; eexists; eauto.
+Qed.
+
+(* the statement for the racing schedule (stream op 24), over whole histories: any configuration, any
+   error-free history, then a poll of open / accept that is inside its critical section when the
+   connection error e strikes, then any further history.  The racing poll ran against the healthy
+   state m; if it answered Pending its own task is woken by the close; so is every sleeper registered
+   before; no slot keeps a sleeper; the connection stays poisoned with e for ever after. *)
+Lemma p_c17_race : forall cfg m0 before e t a k idx after,
+  cm_init true cfg = Some m0 -> Forall (fun o => fst o <> 21 /\ fst o <> 24) before ->
+  race_kind t a = Some k ->
+  let m := cm_exec m0 0 before in
+  let m1 := fst (start_task m idx k) in
+  fst (race m idx e t a) = conn_error e m1 /\
+  snd (race m idx e t a) = snd (start_task m idx k) /\
+  (snd (start_task m idx k) = [0%Z; 0%Z] -> In idx (c_woken (conn_error e m1))) /\
+  (forall x, In x (registered m1) -> In x (c_woken (conn_error e m1))) /\
+  registered (conn_error e m1) = [] /\
+  forall i, Poisoned e (cm_exec (conn_error e m1) i after).
+Proof.
+  intros cfg m0 before e t a k idx after Hi Hb HK m m1.
+  assert (F : c_fix23 m = true) by (unfold m; rewrite fx_cm_exec; eapply fx_init; exact Hi).
+  assert (C : Clean m) by (apply clean_cm_exec; [exact Hb|eapply p_c17_init_clean; exact Hi]).
+  assert (C1 : Clean m1) by (apply clean_start_task; exact C).
+  assert (F1 : c_fix23 m1 = true) by (unfold m1; rewrite fx_start_task; exact F).
+  split; [unfold race; rewrite HK; unfold m1; destruct (start_task m idx k); reflexivity|].
+  split; [unfold race; rewrite HK; destruct (start_task m idx k); reflexivity|].
+  split.
+  - intros HP. apply conn_error_woken; [exact C1|exact F1|].
+    destruct (race_kind_open_accept _ _ _ HK) as [d OA].
+    unfold m1. unfold start_task in *. destruct (slot_busy m k); [cbn in HP; discriminate HP|].
+    pose proof (open_accept_pending_registered m idx k (ex_intro _ d OA)) as R.
+    destruct (poll m idx k) as [mp [code val]]. cbn [fst snd] in *.
+    inversion HP; subst code. cbn [Z.eqb fst]. specialize (R eq_refl).
+    exact R.
+  - split; [intros x; apply conn_error_woken; assumption|].
+    split; [apply conn_error_cleared; assumption|].
+    intros i. apply p_cm_exec. apply conn_error_poisoned. exact C1.
 Qed.
